@@ -67,19 +67,26 @@ def reset_library():
     import grid.angular as ang
     import grid.coulomb as cou
 
-    for name in ("LEBEDEV_CACHE", "SPHERICAL_CACHE", "MAX_DET_CACHE", "AHRENS_BEYLKIN_CACHE"):
-        getattr(ang, name).clear()
-    cou._ATOMIC_GAUSS_PARAMS_CACHE = None
+    # every module-level dictionary whose name says it is a cache (robust to caches being added, merged or renamed)
+    for name, val in list(vars(ang).items()):
+        if "CACHE" in name.upper() and isinstance(val, dict):
+            val.clear()
+    for name, val in list(vars(cou).items()):
+        if "CACHE" in name.upper() and not callable(val):
+            if isinstance(val, dict) and name != "_ATOMIC_GAUSS_PARAMS_CACHE":
+                val.clear()
+            else:
+                setattr(cou, name, None)
 
 
 def cache_of(method):
     import grid.angular as ang
 
     return {
-        "lebedev": ang.LEBEDEV_CACHE,
-        "spherical": ang.SPHERICAL_CACHE,
-        "maxdet": ang.MAX_DET_CACHE,
-        "ahrens_beylkin": ang.AHRENS_BEYLKIN_CACHE,
+        "lebedev": getattr(ang, "LEBEDEV_CACHE", {}),
+        "spherical": getattr(ang, "SPHERICAL_CACHE", {}),
+        "maxdet": getattr(ang, "MAX_DET_CACHE", {}),
+        "ahrens_beylkin": getattr(ang, "AHRENS_BEYLKIN_CACHE", {}),
     }[method]
 
 
